@@ -6,7 +6,7 @@ From Coq Require Import String.
 From Coq Require Import List Bool Arith NArith ZArith.
 Import ListNotations.
 Require Import Str Rx RxFacts AsModel G_as_num TextModel TextProofs.
-Require PyLib G_fn_sir RefAs G_fn_sir2 RefJun RefSub RefAsLine.
+Require PyLib G_fn_sir RefAs G_fn_sir2 RefJun RefSub RefAsLine G_fn_sir3 RefValue RefAsInit.
 
 (* TIE A (function level): the Gallina function GENERATED on this run from AsNumberAnonymizer._generate_as_number_replacement returns, for every
    salt Python can encode and every numeral in range, the decimal text of a number of the same block *)
@@ -28,5 +28,30 @@ Theorem C11_generated_anonymize_as_numbers_is_the_model :
   G_fn_sir2.gen_anonymize_as_numbers (RefSub.sub_call rx_of) fuel (RefAsLine.enc_as cls saltv rh a) (RefJun.vstr line) = PyLib.Normal (RefJun.vstr l).
 Proof. exact RefAsLine.gen_anonymize_as_numbers_refines. Qed.
 
+(* AsNumberAnonymizer.__init__ translated from the source (with _generate_as_number_regex and _generate_as_number_replacement_map, unit G_fn_sir3.v): for a
+   list of distinct ASCII-digit numerals, whenever the model's as_init builds an anonymizer the translated constructor builds exactly the object the
+   theorem above starts from -- salt, the pattern re.compile answered for the text "(?:(?<=\D)|(?<=^))(" + "|".join(numbers) + ")(?=\D|$)", and the map
+   holding for each listed numeral the replacement computed by the translated _generate_as_number_replacement; and the model's pattern is as_rx of the
+   same list.  (That as_rx is what Python's parser makes of this text is data-level: regenerated and compared by the correspondence run.) *)
+Theorem C11_generated_constructor_is_the_model :
+  forall (pc : PyLib.pyval -> PyLib.pyval -> PyLib.res) (cls : list Z) (salt : str) (fuel : nat) (nums : list str) (rxv : PyLib.pyval) (a : as_anonymizer),
+  pc (PyLib.VFun (PyLib.of_string "re.compile")) (PyLib.VTuple [PyLib.VList [RefJun.vstr (RefAsInit.as_pattern_text nums)]; PyLib.VDict []]) = PyLib.Normal rxv ->
+  NoDup nums -> as_init nums salt = Done a ->
+  G_fn_sir3.gen_AsNumberAnonymizer____init__ pc fuel (PyLib.VObj cls []) (PyLib.VList (map RefJun.vstr nums)) (RefJun.vstr salt)
+  = PyLib.Normal (PyLib.VTuple [PyLib.VNone; RefAsLine.enc_as cls (RefJun.vstr salt) rxv a]) /\ as_regex a = as_rx nums.
+Proof. exact RefAsInit.gen_as_init_is_the_model. Qed.
+
+(* ... and for any list (repetitions allowed) the map is the same association, a repeated numeral keeping its first position *)
+Theorem C11_generated_constructor_builds_the_replacement_map :
+  forall (pc : PyLib.pyval -> PyLib.pyval -> PyLib.res) (cls : list Z) (salt : str) (fuel : nat) (nums : list str) (rxv : PyLib.pyval) (m : list (str * str)),
+  pc (PyLib.VFun (PyLib.of_string "re.compile")) (PyLib.VTuple [PyLib.VList [RefJun.vstr (RefAsInit.as_pattern_text nums)]; PyLib.VDict []]) = PyLib.Normal rxv ->
+  RefAsInit.as_build salt nums = Done m ->
+  G_fn_sir3.gen_AsNumberAnonymizer____init__ pc fuel (PyLib.VObj cls []) (PyLib.VList (map RefJun.vstr nums)) (RefJun.vstr salt)
+  = PyLib.Normal (PyLib.VTuple [PyLib.VNone; PyLib.VObj cls [(PyLib.S_ "salt", RefJun.vstr salt); (PyLib.S_ "as_num_regex", rxv);
+                                                             (PyLib.S_ "as_num_map", RefValue.vlook (RefAsInit.fill [] m))]]).
+Proof. exact RefAsInit.gen_as_init_refines. Qed.
+
 Print Assumptions C11_generated_replacement_function_preserves_the_block.
 Print Assumptions C11_generated_anonymize_as_numbers_is_the_model.
+Print Assumptions C11_generated_constructor_is_the_model.
+Print Assumptions C11_generated_constructor_builds_the_replacement_map.
